@@ -800,7 +800,7 @@ pub fn run(tier: Tier) -> i32 {
     // the transports zlink ships, with sends that are given up while pending: the raw bytes a std
     // reader takes off the other end of a real socket pair
     rep.require_goal("send-abandoned-then-more-messages-over-a-real-socket");
-    rep.rule.push_str("; phase raw-wire (child process `sockets c02-child`): over real socket pairs with the zlink-tokio / zlink-smol transports, 2..3 messages (one of them 70..150 KB) where one send is abandoned at its 1st / 2nd / 4th pending poll and the next sends and a final flush follow, x how fast the raw reader at the other end takes bytes off x smallest / default socket buffers: the reader must see every message once, in order, each followed by one NUL");
+    rep.rule.push_str("; phase raw-wire (child process `sockets c02-child`): over real socket pairs with the zlink-tokio / zlink-smol transports, 2..3 messages (one of them 70..150 KB) sent with send_call or each as a chain of its own, where one send is abandoned at its 1st / 2nd / 4th pending poll and the next sends and a final flush follow, x how fast the raw reader at the other end takes bytes off x smallest / default socket buffers: the reader must see every message once, in order, each followed by one NUL");
     if let Err(code) = crate::common::child_phase_bin(&mut rep, "main", "sockets", "c02-child", tier, "raw-wire/abandoned-sends/tokio+smol(child)") {
         return code;
     }
